@@ -35,7 +35,9 @@ THEOREMS = [("Kopf.Props.X01", "Kopf.X01." + n) for n in [
     "work_queue_le", "work_queue_lt_of_no_version", "witer_queue_le", "stale_then_converges_partial",
 ]] + [("Kopf.Props.X01_Variant", "Kopf.X01." + n) for n in [
     "workA_arrive", "runActsA_arrive", "lax_arrival_witness",
-]] + [("Kopf.Props.X01_Noop", "Kopf.X01.noop_makes_no_version")]
+]] + [("Kopf.Props.X01_Noop", "Kopf.X01.noop_makes_no_version")] + [("Kopf.Props.X01_TwoReq", "Kopf.X01." + n) for n in [
+    "no_stale_handling_two_request", "no_stale_handling_two_request_created", "work2_rv_one_request",
+]]
 
 
 ASSUMPTIONS = [
